@@ -1375,6 +1375,9 @@ func fixedOffsetCase(c *core.Ctx, r *rand.Rand) {
 		guard(c, "fe size 0", func() string { return fmt.Sprint(enc.Size()) })
 		var data []byte
 		guard(c, "fe marshal 0", func() string { data = cp(enc.MarshalBinary()); return hx(data) })
+		if r.Intn(2) == 0 {
+			fixedOffsetWriteFaults(c, r, enc, enc.Size(), data)
+		}
 		guard(c, "fe msize 0", func() string { return fmt.Sprint(enc.MarshalSize()) })
 		if n > 0 && enc.MarshalSize() != len(data) {
 			c.Fail("fo-marshal-size", fmt.Sprintf("MarshalSize()=%d but %d bytes written", enc.MarshalSize(), len(data)))
@@ -1701,6 +1704,7 @@ func externalCase(c *core.Ctx, r *rand.Rand, caseIdx int) {
 			}
 		}()
 	}
+	snappyReaderFaultThenReuse(c, r)
 	// something for the model side as well, so the case is not empty in the diffed streams
 	opUv(c, genEdgeU64(r))
 }
